@@ -72,6 +72,7 @@ def lockset_units(prop):
 #: which unit families each property draws on
 FAMILIES = {
     "C43": ["lockset"],
+    "C42": ["catchsched"],
     "C05": ["op"],
     "C06": ["op"],
     "C07": ["slice"],
@@ -104,6 +105,8 @@ def units_for(prop, tier):
         us += forward_units(prop)
     if "class" in fams:
         us += class_units(prop)
+    if "catchsched" in fams:
+        us.append({"runner": "catchsched", "prop": prop, "id": "reactivex/scheduler/catchscheduler.py::CatchScheduler"})
     if "lockset" in fams:
         us += lockset_units(prop)
     if "slice" in fams:
